@@ -30,6 +30,8 @@ type Opts struct {
 	Files   map[string]string // in-memory resources served under mem://doc/<name>
 	Fonts   text.FontConfiguration // optional: reuse a configuration
 	NoWrite bool              // layout only (no drawing)
+	// NoProgressMonitor leaves layout.VerifPageHook alone (concurrent renders: the hook is a global)
+	NoProgressMonitor bool
 }
 
 // Rendered is everything observable from one render.
@@ -121,11 +123,65 @@ func FontsFor(engine string) (text.FontConfiguration, error) {
 	return NewPangoConfig()
 }
 
-// Render lays out and draws one document onto a recorder.  Panics propagate to the caller.
-func Render(o Opts) (*Rendered, error) {
+// StallLimit is the number of consecutive page-loop iterations with an identical state that is taken
+// as "the layout does not progress" (DESIGN.md §4, hook 2).
+const StallLimit = 8
+
+// StallError is returned by Render when the page-loop progress monitor fires.
+type StallError struct {
+	Kind string // "content" | "footnotes"
+	Msg  string
+}
+
+func (e *StallError) Error() string { return "page loop stalled (" + e.Kind + "): " + e.Msg }
+
+// PageLoopIterations counts VerifPageHook calls of the last Render (single-threaded use only).
+var PageLoopIterations int
+
+// Render lays out and draws one document onto a recorder.  Panics propagate to the caller, except the
+// progress monitor's own abort, which is returned as a *StallError.
+func Render(o Opts) (res *Rendered, err error) {
 	out := &Rendered{}
 	done := CaptureWarnings()
 	defer func() { out.Warnings = done() }()
+	if !o.NoProgressMonitor {
+		var (
+			last    string
+			repeats int
+		)
+		PageLoopIterations = 0
+		layout.VerifPageHook = func(index int, resumeAt string, oof, foot int, page *bo.PageBox) {
+			PageLoopIterations++
+			if resumeAt == "nil" && foot == 0 {
+				last, repeats = "", 0 // the loop ends here
+				return
+			}
+			// the page side alternates and the index grows by construction: neither is progress
+			state := fmt.Sprintf("%s|%d|%d|%v|%s", resumeAt, oof, foot, page.PageType.Blank, page.PageType.Name)
+			if state == last {
+				repeats++
+				if repeats >= StallLimit {
+					kind := "content"
+					if resumeAt == "nil" {
+						kind = "footnotes"
+					}
+					panic(&StallError{kind, fmt.Sprintf("no progress for %d consecutive pages (page index %d): resume point %s, %d pending out-of-flow boxes, %d pending footnotes", repeats+1, index, resumeAt, oof, foot)})
+				}
+			} else {
+				last, repeats = state, 0
+			}
+		}
+		defer func() {
+			layout.VerifPageHook = nil
+			if p := recover(); p != nil {
+				if s, ok := p.(*StallError); ok {
+					res, err = out, s
+					return
+				}
+				panic(p)
+			}
+		}()
+	}
 	fonts := o.Fonts
 	if fonts == nil {
 		var err error
